@@ -60,7 +60,14 @@ def call_service(ctx, data, project_name="Site"):
     saved = (main.TargetInput, main.TargetOutput, dp.UtilitySchema, gd.clean_composite_curve)
     main.TargetInput, main.TargetOutput, dp.UtilitySchema = _InStub, _OutStub, SchemaStub
     if ctx.mode == "sym":
-        gd.clean_composite_curve = lambda y, x: (list(y), list(x))
+        real_clean = gd.clean_composite_curve
+
+        def _identity_clean(y, x):
+            xs = list(x)
+            if any(isinstance(v, float) and v != v for v in xs):
+                return real_clean(y, x)          # unpopulated (NaN) columns: the real function returns an empty curve
+            return list(y), xs
+        gd.clean_composite_curve = _identity_clean
     try:
         return main.pinch_analysis_service(data, project_name=project_name)
     finally:
